@@ -117,6 +117,48 @@ DTD_SLOTS = [2, 4, 6, 12]
 DEAD_SLOTS = [7, 8, 9, 10, 11]
 
 
+REAL_NAMES = ["doc-%d.xml" % i for i in range(8)] + ["main.wsdl", "imp.xsd", "second.wsdl", "inc.xsd", "decoy.xsd"]
+
+
+def decoy_for(name):
+    """What sits at the real location of a document suds is handed in memory: never to be read."""
+    if name.endswith(".wsdl"):
+        return (b'<wsdl:definitions xmlns:wsdl="http://schemas.xmlsoap.org/wsdl/" targetNamespace="urn:c20:decoy">'
+                b'<wsdl:documentation>~decoy~</wsdl:documentation></wsdl:definitions>')
+    if name.endswith(".xsd"):
+        return (b'<xsd:schema xmlns:xsd="http://www.w3.org/2001/XMLSchema" targetNamespace="urn:c20:decoy">'
+                b'<xsd:element name="decoy~leak~" type="xsd:string"/></xsd:schema>')
+    return b"<r>~decoy~</r>"
+
+
+def url_prefix(kind):
+    """Where a named document claims to live."""
+    if kind == "suds":
+        return "suds://c20/"
+    if kind == "invalid":
+        return "http://c20.invalid/"
+    if kind == "file":
+        return "file://" + WORLD.real + "/"
+    return "http://127.0.0.1:%d/real/" % WORLD.port
+
+
+URL_KINDS = ["suds", "invalid", "file", "loop"]
+CTYPES = ["bytes", "bytearray", "memoryview", "str"]
+
+
+def as_type(data, ctype):
+    """The same content as another kind of buffer (None: not expressible)."""
+    if ctype == "bytes":
+        return data
+    if ctype == "bytearray":
+        return bytearray(data)
+    if ctype == "memoryview":
+        return memoryview(data)
+    if data.startswith(b"\xef\xbb\xbf"):
+        return None
+    return data.decode("ascii")
+
+
 class World(object):
     """Marker files, loopback HTTP server, and the mapping between system
     identifier strings / file paths / URLs and slot numbers."""
@@ -135,9 +177,15 @@ class World(object):
 
     def start(self):
         shutil.rmtree(self.base, ignore_errors=True)
-        for d in (self.base, self.cwd, self.cache, os.path.join(self.base, "abs")):
+        self.real = os.path.join(self.base, "real")
+        for d in (self.base, self.cwd, self.cache, os.path.join(self.base, "abs"), self.real):
             os.makedirs(d)
         self._start_server()
+        # "real" locations: documents that suds is given through a store / transport under a file:// or
+        # http://loopback URL exist at that very location too, with DIFFERENT (marker) content
+        for name in REAL_NAMES:
+            with open(os.path.join(self.real, name), "wb") as f:
+                f.write(decoy_for(name))
         for sid, kind, hint, res in SLOT_DEFS:
             data = render_resource(res) if res else None
             if kind == "file":
@@ -174,6 +222,8 @@ class World(object):
             def do_GET(self):
                 world.hits.append(self.path)
                 body = world.http_content.get(self.path)
+                if body is None and self.path.startswith("/real/"):
+                    body = decoy_for(self.path)
                 if body is None:
                     self.send_response(404)
                     self.end_headers()
@@ -298,10 +348,43 @@ def r_decls(decls, sysid_of):
     return " ".join(out)
 
 
+DEFAULT_STYLE = {"xmldecl": "none", "quote": '"', "encoding": "UTF-8", "bom": False, "sep": "",
+                 "comment": False, "pi": False, "trailing": ""}
+ENCODINGS = ["UTF-8", "utf-8", "ISO-8859-1", "US-ASCII", "us-ascii"]
+
+
+def style_for(n):
+    """A deterministic rendering style (model-irrelevant surface of the document) from an index."""
+    enc = ENCODINGS[n % len(ENCODINGS)]
+    return {"xmldecl": ("none", "version", "encoding")[(n // 2) % 3], "quote": "\"'"[(n // 3) % 2],
+            "encoding": enc, "bom": (n % 7 == 3) and enc.lower() == "utf-8", "sep": ("", "\n", "\n  ")[(n // 5) % 3],
+            "comment": n % 4 == 1, "pi": n % 6 == 2, "trailing": ("", "\n")[(n // 11) % 2]}
+
+
+def g_style(rng):
+    return style_for(rng.randrange(0, 100000))
+
+
 def render_doc(doc, sysid_of):
+    st = doc.get("style") or DEFAULT_STYLE
+    q = st["quote"]
+    sep = st["sep"]
     out = []
-    if doc.get("xmldecl") or doc["standalone"]:
-        out.append('<?xml version="1.0" encoding="UTF-8"%s?>' % (' standalone="yes"' if doc["standalone"] else ""))
+    sdecl = doc["sdecl"]
+    kind = st["xmldecl"]
+    if sdecl is not None and kind == "none":
+        kind = "version"                    # standalone needs an XML declaration
+    if kind != "none":
+        d = "<?xml version=%s1.0%s" % (q, q)
+        if kind == "encoding":
+            d += " encoding=%s%s%s" % (q, st["encoding"], q)
+        if sdecl is not None:
+            d += " standalone=%s%s%s" % (q, sdecl, q)
+        out.append(d + "?>" + sep)
+    if st["comment"]:
+        out.append("<!-- c20 -->" + sep)
+    if st["pi"]:
+        out.append("<?c20 prolog?>" + sep)
     root = doc["body"][0][1]
     if doc["ext"] is not None or doc["subset"] or doc.get("bare_doctype"):
         s = "<!DOCTYPE " + root
@@ -311,11 +394,17 @@ def render_doc(doc, sysid_of):
             else:
                 s += ' SYSTEM "%s"' % sysid_of(doc["ext"])
         if doc["subset"]:
-            s += " [" + r_decls(doc["subset"], sysid_of) + "]"
+            s += " [" + sep + r_decls(doc["subset"], sysid_of) + sep + "]"
         s += ">"
-        out.append(s)
+        out.append(s + sep)
+        if st["comment"]:
+            out.append("<!-- after doctype -->" + sep)
     out.append(r_toks(doc["body"]))
-    return "".join(out).encode("utf-8")
+    out.append(st["trailing"])
+    data = "".join(out).encode("ascii")
+    if st["bom"] and (kind != "encoding" or st["encoding"].lower() == "utf-8"):
+        data = b"\xef\xbb\xbf" + data
+    return data
 
 
 def render_resource(res):
@@ -378,7 +467,7 @@ def q_decls(decls):
 
 
 def q_doc(doc):
-    return "(mkDoc %s %s %s %s)" % (cbool(doc["standalone"]),
+    return "(mkDoc %s %s %s %s)" % ({None: "SAbsent", "yes": "SYes", "no": "SNo"}[doc["sdecl"]],
                                     copt(cN(doc["ext"]) if doc["ext"] is not None else None, "sysid"),
                                     q_decls(doc["subset"]), q_toks(doc["body"]))
 
@@ -673,14 +762,35 @@ def g_doc(rng):
     subset = g_decls(rng) if rng.random() < 0.9 else []
     ext = rng.choice(SLOT_IDS) if rng.random() < 0.35 else None
     body = [("o", "r", g_attrs(rng, ENT, 0.4))] + g_content(rng, ENT, 2, 0.45) + [("c", "r")]
-    return {"standalone": rng.random() < 0.1, "ext": ext, "subset": subset, "body": body,
-            "public": rng.random() < 0.3, "xmldecl": rng.random() < 0.5,
-            "bare_doctype": rng.random() < 0.2}
+    r = rng.random()
+    return {"sdecl": None if r < 0.45 else ("no" if r < 0.85 else "yes"), "ext": ext, "subset": subset, "body": body,
+            "public": rng.random() < 0.3, "style": g_style(rng), "bare_doctype": rng.random() < 0.2}
 
 
-def mk_doc(subset, body, ext=None, standalone=False, public=False):
-    return {"standalone": standalone, "ext": ext, "subset": subset, "body": body, "public": public,
-            "xmldecl": False, "bare_doctype": False}
+def mk_doc(subset, body, ext=None, standalone=None, public=False, style=None):
+    """standalone: None / False = no pseudo-attribute, True / "yes", "no"."""
+    sdecl = {None: None, False: None, True: "yes", "yes": "yes", "no": "no"}[standalone]
+    return {"sdecl": sdecl, "ext": ext, "subset": subset, "body": body, "public": public,
+            "style": style, "bare_doctype": False}
+
+
+def variant(doc, n):
+    """The same document with another (model-irrelevant) surface: rendering style n, and
+    standalone="no" instead of an absent pseudo-attribute for odd n."""
+    d = dict(doc)
+    d["style"] = style_for(n)
+    if d["sdecl"] is None and n % 2:
+        d["sdecl"] = "no"
+    return d
+
+
+def g_restyle(rng, doc):
+    d = dict(doc)
+    d["style"] = g_style(rng)
+    if d["sdecl"] is None:
+        r = rng.random()
+        d["sdecl"] = None if r < 0.4 else ("no" if r < 0.9 else "yes")
+    return d
 
 
 def grid_docs():
@@ -762,7 +872,7 @@ def exhaustive_docs():
     for d1 in shapes:
         for d2 in shapes:
             for ext in (None, 2, 9):
-                for sa in (False, True):
+                for sa in (None, "no", "yes"):
                     for b in bodies:
                         yield mk_doc([d1, d2], b, ext=ext, standalone=sa)
 
@@ -794,8 +904,8 @@ def doc_features(doc):
     decls(doc["subset"], False)
     if doc["ext"] is not None:
         f.add("ext-subset")
-    if doc["standalone"]:
-        f.add("standalone")
+    if doc["sdecl"] is not None:
+        f.add("standalone-" + doc["sdecl"])
     for t in doc["body"]:
         if t[0] == "r":
             f.add("ref-in-text")
